@@ -4,6 +4,9 @@ proof      : DtnVerif.Props.C12 (receive-chain fragment, Model/SecChain.lean)
 corr       : harness-made malformed / valid security blocks through the real receiving agent; the same
              bundle (independently decoded) + the observed per-target outcomes through `sec.chain`;
              compared: delivered?, deleted?, reason, remaining blocks, payload octets
+regression : the kinds second-bib-bad-after-good (D15), missing-target / results-shorter / mixed-exception
+             (D16), undecodable-asb (D22), valid-bib-no-parameters (D29) are the implementation-side twins of
+             the four defects repaired in /repo; their signatures stay armed
 monitors   : defective (by construction) => no application reached (probe step, order 25) AND marked
              deleted with a security reason 12..16 (AND reported when a deletion report is requested);
              non-defective => delivered, payload exact, accepted blocks removed iff acceptance configured
@@ -13,8 +16,8 @@ import cbor2
 
 import seclib as S
 
-KINDS_QUICK = 2
-KINDS_THOROUGH = 10
+KINDS_QUICK = 3
+KINDS_THOROUGH = 30
 
 
 def _to_cbor2(v):
@@ -254,30 +257,6 @@ def judge(chk, rec, ans):
             chk.count('pass-ok')
 
 
-def counterexamples(chk):
-    ''' The Lean counterexample witnesses of Props/C12, replayed on the model driver (the harness cases
-    `second-bib-bad-after-good`, `missing-target`, `undecodable-asb` are their implementation-side twins). '''
-    good = {'targets': [1], 'ctxId': 3, 'paramIds': [5], 'results': [[17]]}
-    w15 = {'op': 'sec.chain', 'accept': True, 'blocks': [
-        {'type': 11, 'num': 2, 'asb': dict(good, targets=[3])}, {'type': 11, 'num': 4, 'asb': good},
-        {'type': 7, 'num': 3}, {'type': 1, 'num': 1}], 'orc': [[2, 3, 'ok'], [4, 1, 'fail']]}
-    w16 = {'op': 'sec.chain', 'accept': False, 'blocks': [
-        {'type': 11, 'num': 2, 'asb': dict(good, targets=[9])}, {'type': 1, 'num': 1}], 'orc': []}
-    w22 = {'op': 'sec.chain', 'accept': False, 'blocks': [{'type': 11, 'num': 2, 'asb': None}, {'type': 1, 'num': 1}], 'orc': []}
-    w29 = {'op': 'sec.chain', 'accept': False, 'blocks': [
-        {'type': 11, 'num': 2, 'asb': dict(good, paramIds=[], hasParams=False)}, {'type': 1, 'num': 1}], 'orc': [[2, 1, 'ok']]}
-    o29 = chk.driver([w29, dict(w29, quirks='fixed')])
-    if o29[0].get('delivered') or not o29[1].get('delivered'):
-        chk.corr_break('model: parameter-less BIB witness (D29) behaves unexpectedly', o29)
-    outs = chk.driver([w15, w16, w22] + [dict(w, quirks='fixed') for w in (w15, w16, w22)])
-    for name, o in zip(('D15', 'D16', 'D22'), outs[:3]):
-        if o.get('secDeleted'):
-            chk.corr_break('model no longer exhibits %s on its witness' % name, o)
-    for name, o in zip(('D15', 'D16', 'D22'), outs[3:]):
-        if not o.get('secDeleted') or o.get('delivered'):
-            chk.corr_break('repaired model does not fail closed on the %s witness' % name, o)
-
-
 def run(chk):
     chk.prove('DtnVerif.Props.C12')
     chk.cov['rule'] = ('for each base bundle x {accept on, off} x every malformation kind: real receiver || sec.chain model, '
@@ -288,7 +267,6 @@ def run(chk):
         'COSE_Mac with key-wrap recipients is not exercisable with upstream pycose 1.1.0 (no MacMessage.verify_tag(recipient)); Sign1 needs the certificate stub and is not exercised here',
     ]
     S.OBSERVER.install()
-    counterexamples(chk)
     rng = chk.rng
     nb = KINDS_QUICK if chk.tier == 'quick' else KINDS_THOROUGH
     kmac = bytes(rng.getrandbits(8) for _ in range(32))
